@@ -15,6 +15,8 @@ CONSTANTS
   LoadLocks = TRUE
   SaveLocks = TRUE
   TruncFirst = FALSE
+  StatBeforeLock = FALSE
+  FreshUpdates = FALSE
   Reread = FALSE
 INVARIANTS
   NoLostUpdate
